@@ -495,6 +495,71 @@ func accUniverse32(r *rand.Rand, maxAtoms int) (*Universe, []iset, [][]int) {
 	}
 }
 
+// sparseKeysUniverse: 9..20 chunk keys (32-bit) or bucket keys (64-bit) with gaps between them, 3..4 generators that
+// each hold a small pattern in about half of the keys. Key-level merge loops (the aggregates' heaps, ParOr's per-range
+// merges of the third and later inputs, And/AndNot key skipping) see every interleaving of private and shared keys.
+func sparseKeysUniverse(r *rand.Rand, bits int, maxAtoms int) (*Universe, []iset) {
+	shift := uint(16)
+	maxKey := uint64(0xFFFF)
+	if bits == 64 {
+		shift = 32
+		maxKey = 0xFFFFFFFF
+	}
+	for {
+		nk := 9 + r.Intn(12)
+		span0 := uint64(3 * nk)
+		k := pick(r, []uint64{0, 1, maxKey / 2, maxKey - span0, uint64(r.Int63n(int64(maxKey - span0)))})
+		var keys []uint64
+		for len(keys) < nk {
+			keys = append(keys, k)
+			k += uint64(1 + r.Intn(3))
+		}
+		ng := 3 + r.Intn(2)
+		gens := make([]iset, ng)
+		for i := range gens {
+			var sps []span
+			for _, key := range keys {
+				if r.Intn(2) == 0 {
+					continue
+				}
+				b := key << shift
+				switch r.Intn(6) {
+				case 0:
+					sps = append(sps, span{b + 5, b + 5})
+				case 1:
+					sps = append(sps, span{b + 5, b + 5}, span{b + 9, b + 9})
+				case 2:
+					sps = append(sps, span{b + 5, b + 20})
+				case 3:
+					sps = append(sps, span{b, b})
+				case 4:
+					sps = append(sps, span{b + (1 << shift) - 1, b + (1 << shift) - 1})
+				default:
+					sps = append(sps, span{b + 40000, b + 46000})
+				}
+			}
+			gens[i] = normalize(sps)
+		}
+		var cuts []uint64
+		for _, key := range keys { // cells: the keys themselves and the gaps between them
+			cuts = append(cuts, key<<shift)
+			if key < maxKey {
+				cuts = append(cuts, (key+1)<<shift)
+			}
+		}
+		u, err := vennUniverse(bits, cuts, gens)
+		if err != nil {
+			panic(err)
+		}
+		if len(u.Atoms) > maxAtoms {
+			continue
+		}
+		u.computeShifts(nil)
+		u.Name = "sparsekeys"
+		return u, gens
+	}
+}
+
 // randUniverse32 draws generators + cut points and returns the Venn universe.
 var minKeys = 1
 var spreadKeys = 0 // > 0: generators may contain a "spread" over that many consecutive chunk keys
